@@ -234,7 +234,29 @@ def spec_project(ctx, files, dirs, inputs, recursive, mode, trailing, base=BASE,
         if failed is not None:
             done[src] = False
             ex.ok = False
-            ex.kinds.add('cycle' if 'cycle' in str(failed) or 'dependency failed' in str(failed) else 'other')
+            kind = 'cycle' if 'cycle' in str(failed) or 'dependency failed' in str(failed) else 'other'
+            if kind == 'cycle':
+                # the source may fail for a reason of its own BEFORE its first dependency line is reached (a failing command, tag
+                # misuse ...): then the run stops there, nothing is known about its dependencies, and the failure is not "only a cycle"
+                class _AtFirstDep(Exception):
+                    pass
+
+                class _Probe(FileEnv):
+                    def _dep(self, arg):
+                        target = norm(posixpath.join(self.d, bytes(arg)))
+                        if source_of(target) is not None:
+                            raise _AtFirstDep()
+                        return target
+
+                    def write_temp(self, ctx_, arg, content):
+                        pass
+                try:
+                    pr = specpp.process(cc, tuple(fs[src]), _Probe(src, stack), trailing)
+                    if not pr.ok:
+                        kind = 'other'
+                except _AtFirstDep:
+                    pass
+            ex.kinds.add(kind)
             ex.error = ex.error or ('%s: %s' % (src.decode(), failed))
             # its first pass may have run up to the first dependency line: temp targets are legitimately touched
             for t in specpp.temp_targets_all(cc, tuple(fs[src])):
